@@ -5,6 +5,14 @@ bin="$1"; PROP="$2"
 # Only the properties that state memory safety / ownership own a crash. For the others the
 # property itself was not observed to fail: the check could not decide.
 case "$PROP" in C02|C03|C04|C17|C18) ;; *)
+  # Retry without the heap-owning payload kind: with ledger-tracked and plain payloads a double
+  # drop or a stale slot is recorded instead of killing the process, so the property's own oracle
+  # can decide. Whatever that run reports is about the real code; only if it dies as well is the
+  # check inconclusive.
+  echo "note: the runner was killed (memory corruption or abort inside the library); re-running $PROP without heap-owning payloads"
+  shift 2
+  env "$@" VERIF_SAFE_KINDS=1 timeout 3600 "$bin" "$PROP" "${VERIF_MODE:-quick}"; rc=$?
+  if [ $rc -le 1 ]; then exit $rc; fi
   echo "INCONCLUSIVE: the runner was killed (memory corruption or abort inside the library) before property $PROP could be decided"; exit 2 ;;
 esac
 J="$VERIF_DIR/work/journal-$PROP"
